@@ -18,7 +18,7 @@ RULE = (
     "check_X coercions. non-trivial = >= 2 variables with names not in sorted order, or a "
     "path of length 3; distinct = distinct JSON of the case"
 )
-ASSUMPTIONS = ["cells carry the default time index 0..t-1", "2-D table -> nested exists for a single variable only"]
+ASSUMPTIONS = ["cells carry the default time index 0..t-1", "a long table read back orders instances by their identifier, like variables; every other path keeps the order of appearance", "2-D table -> nested exists for a single variable only"]
 
 from sktime.utils import data_processing as dp  # noqa: E402
 from sktime.utils.validation.panel import check_X  # noqa: E402
@@ -135,6 +135,15 @@ def oracle(case, ctx):
     n, c, t = A.shape
     names = case["names"] if case["names"] is not None else ["var_%d" % j for j in range(c)]
     inst = list(range(case["inst_start"], case["inst_start"] + n))
+    if case.get("inst_order"):
+        # instance labels that are not in ascending order (a shuffled or filtered panel):
+        # instance order means order of appearance, not order of the labels
+        order = sorted(range(n), key=lambda i: (case["inst_order"][i % len(case["inst_order"])], i))
+        inst = [inst[order.index(i)] for i in range(n)]
+        if case.get("inst_str"):
+            inst = ["i%s" % chr(ord("a") + (v - case["inst_start"])) for v in inst]
+        if inst != sorted(inst):
+            ctx.label("instance_labels_not_sorted")
     starts = {
         "A3": A.copy(), "Ns": build_nested(A, names, "series", inst), "Na": build_nested(A, names, "array", inst),
         "MI": build_mi(A, names, inst), "L": build_long(A, names, inst),
@@ -150,7 +159,7 @@ def oracle(case, ctx):
     def state_after(kind, A_exp, names_exp):
         return A_exp, names_exp
 
-    def walk(kind, obj, A_exp, names_exp, path, depth):
+    def walk(kind, obj, A_exp, names_exp, path, depth, inst_exp=None):
         nonlocal n_paths
         if len(discs) >= 1 or depth == 0:
             return
@@ -169,6 +178,11 @@ def oracle(case, ctx):
                 order = sorted(range(c), key=lambda j: cur[j])
                 A2 = A_exp[:, order, :]
                 nm2 = None
+                # ... and, being an unordered relation keyed by identifiers, is read back in the
+                # order of the instance identifiers as well
+                labs = inst_exp if inst_exp is not None else list(range(A_exp.shape[0]))
+                iorder = sorted(range(len(labs)), key=lambda i: labs[i])
+                A2 = A2[iorder, :, :]
             if to in ("A3", "T2"):
                 nm2 = None
             elif kind == "A3":
@@ -193,10 +207,10 @@ def oracle(case, ctx):
                     discs.append(D("names_differ:%s->%s" % (kind, to), "path %s: names %s expected %s" % ("->".join(p), gnames, want)))
                     return
                 nm2 = list(gnames)
-            walk(to, r, A2, nm2, p, depth - 1)
+            walk(to, r, A2, nm2, p, depth - 1, ginst)
 
     for s, obj in starts.items():
-        walk(s, obj, A, (names if s != "A3" else None), [s], 3)
+        walk(s, obj, A, (names if s != "A3" else None), [s], 3, None if s == "A3" else inst)
         if discs:
             break
     ctx.count("paths", n_paths)
@@ -250,7 +264,9 @@ def cases(draw):
     vals = draw(st.lists(st.lists(st.lists(
         st.floats(-1e9, 1e9, allow_nan=False, allow_infinity=False, width=64), min_size=t, max_size=t),
         min_size=c, max_size=c), min_size=n, max_size=n))
-    return {"values": vals, "names": names, "inst_start": draw(st.sampled_from([0, 0, 5]))}
+    return {"values": vals, "names": names, "inst_start": draw(st.sampled_from([0, 0, 5])),
+            "inst_order": draw(st.one_of(st.none(), st.lists(st.integers(0, 9), min_size=1, max_size=6))),
+            "inst_str": draw(st.booleans())}
 
 
 def subchecks():
